@@ -53,7 +53,7 @@ def gen_case(rng: random.Random, tier: str) -> dict:
         nd["script"] = []
         if rng.random() < 0.4:
             # legal answers that happen to be falsy
-            nd["resp"] = [rng.choice(["zero", "false", "empty_str", "empty_list", None]) for _ in nd["outs"]]
+            nd["resp"] = [rng.choice(["zero", "false", "empty_str", "empty_list", "ambiguous", "ambiguous", None]) for _ in nd["outs"]]  # ambiguous: an array-like answer whose comparison has no truth value
     # some interrupts also emit an ordering signal that a further node waits for
     extra = []
     for i in picks:
